@@ -944,29 +944,19 @@ func (c *Conn) handleData(arg string) {
 	c.writeResponse(code, enhancedCode, msg)
 }
 
+// discardChunk skips the octets of a BDAT chunk that is not going to be passed
+// to the backend, so that they are not interpreted as commands.
+func (c *Conn) discardChunk(size uint64) {
+	c.lineLimitReader.LineLimit = 0
+	io.Copy(ioutil.Discard, io.LimitReader(c.text.R, int64(size)))
+	c.lineLimitReader.LineLimit = c.server.MaxLineLength
+}
+
 func (c *Conn) handleBdat(arg string) {
 	args := strings.Fields(arg)
 	if len(args) == 0 {
 		c.writeResponse(501, EnhancedCode{5, 5, 4}, "Missing chunk size argument")
 		return
-	}
-	if len(args) > 2 {
-		c.writeResponse(501, EnhancedCode{5, 5, 4}, "Too many arguments")
-		return
-	}
-
-	if !c.fromReceived || len(c.recipients) == 0 {
-		c.writeResponse(502, EnhancedCode{5, 5, 1}, "Missing RCPT TO command.")
-		return
-	}
-
-	last := false
-	if len(args) == 2 {
-		if !strings.EqualFold(args[1], "LAST") {
-			c.writeResponse(501, EnhancedCode{5, 5, 4}, "Unknown BDAT argument")
-			return
-		}
-		last = true
 	}
 
 	// ParseUint instead of Atoi so we will not accept negative values.
@@ -976,11 +966,35 @@ func (c *Conn) handleBdat(arg string) {
 		return
 	}
 
+	// From here on the chunk size is known: per RFC 3030 section 2 a chunk
+	// that is refused must still be consumed and discarded.
+	if len(args) > 2 {
+		c.writeResponse(501, EnhancedCode{5, 5, 4}, "Too many arguments")
+		c.discardChunk(size)
+		return
+	}
+
+	if !c.fromReceived || len(c.recipients) == 0 {
+		c.writeResponse(502, EnhancedCode{5, 5, 1}, "Missing RCPT TO command.")
+		c.discardChunk(size)
+		return
+	}
+
+	last := false
+	if len(args) == 2 {
+		if !strings.EqualFold(args[1], "LAST") {
+			c.writeResponse(501, EnhancedCode{5, 5, 4}, "Unknown BDAT argument")
+			c.discardChunk(size)
+			return
+		}
+		last = true
+	}
+
 	if c.server.MaxMessageBytes != 0 && c.bytesReceived+int64(size) > c.server.MaxMessageBytes {
 		c.writeResponse(552, EnhancedCode{5, 3, 4}, "Max message size exceeded")
 
 		// Discard chunk itself without passing it to backend.
-		io.Copy(ioutil.Discard, io.LimitReader(c.text.R, int64(size)))
+		c.discardChunk(size)
 
 		c.reset()
 		return
